@@ -9,7 +9,7 @@ from ..dense import (DENSE, ct_cases, case_q, to_time, norm_signals, dense_text,
                      ct_candidates, unaligned)
 from ..formula import from_json
 from ..monitors import run_ct_off
-from ..refsem import ct_cells, Undefined, needs_tolerance
+from ..refsem import ct_cells, Undefined, needs_tolerance, same, step_at
 from ..runner import Lane, PASS, FAIL, DISCARD
 
 PROPERTY = 'C04'
@@ -17,7 +17,7 @@ PROPERTY = 'C04'
 RULE = ('Typed grammar restricted to the dense-time operators (arithmetic, comparisons, Boolean, once/historically/eventually/always/'
         'since/until bounded and unbounded) x piecewise-constant signals on a rational grid (quantum 1/4; thorough also 1/8, 1/2), '
         'break-points of different variables drawn independently (unaligned), 1-8 samples per variable; lanes main (t0=0), shifted '
-        '(t0>0, no variable-free predicate), long (bounds up to 24 cells, longer than the signals), arith, staircase (5-12 samples in long monotone runs under windows up to 16 cells), big (8-20 samples, three variables) and units (bounds with explicit units / the case restated in another default unit, machinery of C08) surplus (the call carries a further signal that the specification does not read, declared or not, starting later than the others) and bigint (integer samples of the order of 1.7e18 whose small differences are compared with constants, read at the sampling instants against a reference in exact integer arithmetic) and reevaluate (one specification object evaluated repeatedly on the same sample list objects, edited in place by the caller between the calls). Oracle: grid reference R-ct; '
+        '(t0>0, no variable-free predicate), long (bounds up to 24 cells, longer than the signals), arith, staircase (5-12 samples in long monotone runs under windows up to 16 cells), big (8-20 samples, three variables) and units (bounds with explicit units / the case restated in another default unit, machinery of C08) surplus (the call carries a further signal that the specification does not read, declared or not, starting later than the others) and bigint_time (untimed formulas on signals whose time stamps are Python integers of the order of 1.7e18, a few units apart; instants compared as integers) and bigint (integer samples of the order of 1.7e18 whose small differences are compared with constants, read at the sampling instants against a reference in exact integer arithmetic) and reevaluate (one specification object evaluated repeatedly on the same sample list objects, edited in place by the caller between the calls). Oracle: grid reference R-ct; '
         'the returned sample list must have non-decreasing finite time stamps, start at t0 and, read as a right-continuous step '
         'function, equal R-ct at every cell start, cell midpoint and output time stamp of [t0, earliest last sample]. '
         'Non-trivial = >=1 temporal operator and (>=2 variables with unaligned break-points or a bounded operator); '
@@ -339,7 +339,62 @@ def check_bigint(case):
     return C19.check_bigint(case, prop='C04')
 
 
+@st.composite
+def bigint_time_cases(draw, tier):
+    """Untimed dense-time formulas on signals whose time stamps are Python integers of the order of 1.7e18 (nanoseconds since the
+    epoch, default unit ns): neighbouring stamps are a few units apart, far below the spacing of doubles there (256)."""
+    f, vs = draw(F.formulas(_profile(tier, tun=(), tbin=(), max_depth=3)))
+    t0 = draw(st.sampled_from([1700000000000000000, 2 ** 53 + 1, 2 ** 62 + 12345, 1700000000123456789]))
+    sig = {}
+    for v in vs:
+        n = draw(st.sampled_from([2, 3, 4, 5, 6, 8]))
+        k, xs = t0, []
+        for _ in range(n):
+            xs.append([k, draw(F.values())])
+            k += draw(st.sampled_from([1, 2, 3, 5, 7]))
+        sig[v] = xs
+    return {'formula': f, 'vars': vs, 'signals': sig}
+
+
+def check_bigint_time(case):
+    """Integer time stamps beyond 2**53: the result, read as a step function at every integer instant of the domain, equals the
+    grid reference (cells of one time unit); instants are compared as Python integers, never through float()."""
+    f = from_json(case['formula'])
+    used = F.fvars(f)
+    labels = feature_labels(f) + ['integer-time-stamps>2^53']
+    if not used:
+        return DISCARD('no-variable', labels)
+    sig = {v: [(int(k), float(x)) for k, x in case['signals'][v]] for v in case['vars'] if v in used}
+    for x in F.subterms(f):
+        arith = (x[0] == 'pred') or (x[0] == 'bin' and x[1] in F.BIN_ARITH) or (x[0] == 'un' and x[1] in F.UN_ARITH)
+        if (x[0] in ('pred', 'bin', 'un') and not F.fvars(x)) or (not arith and any(c[0] == 'const' for c in F.children(x))):
+            return DISCARD('variable-free-subformula-with-t0>0', labels)
+    try:
+        K0, Kend, ref = ct_cells(f, sig)
+    except Undefined:
+        return DISCARD('undefined', labels)
+    text = 'out = ' + F.show(f)
+    sig_t = {v: [[k, x] for k, x in s] for v, s in sig.items()}
+    o = run_ct_off(text, list(sig), sig_t, unit='ns')
+    desc = 'spec: %s (default unit ns)\nsignals (integer time stamps): %s' % (text, sig_t)
+    if o[0] != 'ok':
+        return FAIL('exc:%s@%s' % (o[1], o[4]), desc + '\nraised %s: %s at %s' % (o[1], o[3], o[4]), labels)
+    out = o[1]
+    msg = check_shape(out)
+    if msg:
+        return FAIL('shape', desc + '\n' + msg + '\nresult: %r' % (out,), labels)
+    if not out or out[0][0] != K0:
+        return FAIL('start:integer-time-stamps', desc + '\nresult does not start at the beginning of the domain (%d): %r' % (K0, out[:3]), labels)
+    tol = needs_tolerance(f)
+    for k in range(K0, Kend + 1):
+        got = step_at(out, k)
+        if got is None or not same(got, ref[k - K0], tol):
+            return FAIL('mismatch:integer-time-stamps', desc + '\nresult: %r\nat t = t0 + %d rtamt gives %r, reference %r' % (out, k - K0, got, ref[k - K0]), labels)
+    return PASS(F.n_temporal(f) >= 1 or len(sig) >= 2, labels)
+
+
 LANES = [
+    Lane('bigint_time', bigint_time_cases, check_bigint_time, 600, 6000, None),
     Lane('bigint', lambda tier: __import__('vlib.common', fromlist=['bigint_cases']).bigint_cases(dense=True), check_bigint, 500, 5000, None),
     Lane('big', big_cases, check, 300, 5000, ct_candidates),
     Lane('staircase', lambda tier: staircase_cases(tier), check, 1500, 20000, ct_candidates),
